@@ -59,8 +59,9 @@ def run_case(case, g, tier, res):
             mol.mixture._relative_mass = f
             mol.mixture._system_mass = S
             mol.mixture._absolute_mass = f / 100.0 * S
+        called = []
         for i, mol in enumerate(system._molecules):
-            mol.generate = (lambda i: (lambda prefix=None, rng=None: FakeMolGen(i, 0, mbar[i], True)))(i)
+            mol.generate = (lambda i: (lambda prefix=None, rng=None: (called.append(i), FakeMolGen(i, 0, mbar[i], True))[1]))(i)
         captured = []
 
         def on_choice(rec, c):
@@ -74,19 +75,45 @@ def run_case(case, g, tier, res):
             next(it)
         else:
             system.generate(rng=rng)
-        rec = captured[0]
-        p = rec.p
-        if p is None:  # numpy: no p = uniform
-            p = [1.0 / len(rec.items)] * len(rec.items)
+        sumf = sum(fr, 0.0)
+        if not captured:
+            # no rng.choice: the pick is computed from uniform draws (inverse-CDF sampling and the like).  Its law is the
+            # measure of the set of draws u that lead to each component: on a path that returns component i the set of u
+            # satisfying the path condition (fractions fixed) must not be longer than f_i / sum f by more than 10 points.
+            # (If no path is too long the lengths are exactly f_i / sum f, because they add up to 1.)
+            us = [v for (_, v) in rng.other_calls]
+            if len(us) != 1 or len(called) != 1:
+                raise core.Unsupported(f"component pick without rng.choice and with {len(us)} other draws")
+            import z3
+
+            i, u = called[0], us[0]
+            uz = u.n.z3()
+            u2 = z3.Real("u_other")
+            A2 = z3.substitute(z3.And(*c.solver.assertions()), (uz, u2))
+            too_long = z3.And(A2, (u2 - uz) * sumf.term() > fr[i].term() + z3.RealVal("1/10") * sumf.term())
+
+            def buildm(mv, c):
+                fv = [float(c.eval_in(mv, f)) for f in fr]
+                return (f"C14:pick-law-other@System.{case['entry']}", f"component {i} is picked for a set of uniform draws longer than its declared share {fv[i]} of {fv} by more than 10 points",
+                        {"kind": "share", "entry": case["entry"], "fractions": fv, "mbar": [float(c.eval_in(mv, m)) for m in mbar], "p": [], "k": k, "what": "measure", "component": i})
+
+            c.prove(core.SymBool(z3.Not(too_long)), "pick law (measure of the uniform draw) is the mass fraction", buildm)
+            p = [f / sumf for f in fr]
+            rec = None
+        else:
+            rec = captured[0]
+            p = rec.p
+            if p is None:  # numpy: no p = uniform
+                p = [1.0 / len(rec.items)] * len(rec.items)
+
         def build0(mv, c):
             fv = [float(c.eval_in(mv, f)) for f in fr]
             mv_ = [float(c.eval_in(mv, m)) for m in mbar]
             return (f"C14:pick-not-over-all-components@System.{case['entry']}", f"the component pick is not over all {k} declared components for declared mass fractions {fv}",
                     {"kind": "share", "entry": case["entry"], "fractions": fv, "mbar": mv_, "p": [], "k": k, "what": "components"})
 
-        c.prove(len(p) == k and [int(x) for x in rec.items] == list(range(k)), "pick is over all declared components", build0)
+        c.prove(len(p) == k and (rec is None or [int(x) for x in rec.items] == list(range(k))), "pick is over all declared components", build0)
         denom = sum((p[j] * mbar[j] for j in range(k)), 0.0)
-        sumf = sum(fr, 0.0)
         # is it the known wrong law p_i = f_i / sum f ?
         known = And(*[p[i] * sumf == fr[i] for i in range(k)])
 
@@ -129,6 +156,16 @@ def replay(rp, gb):
     total = 40000.0
     text = "".join(f"{s}.|{fi!r}%|" for s, fi in zip(smiles[:-1], f[:-1])) + f"{smiles[-1]}.|{total * f[-1] / 100.0!r}|"
     system = gb.System(text)
+    if rp.get("what") == "measure":
+        # empirical pick frequencies of the plain package against the declared fractions (4000 single generations, seeded)
+        rr = np.random.default_rng(2024)
+        cnt = [0] * k
+        for _ in range(4000):
+            w = system.generate(rng=rr).weight
+            cnt[min(range(k), key=lambda j: abs(masses[j] - w))] += 1
+        freq = [100.0 * x / 4000 for x in cnt]
+        i = rp["component"]
+        return freq[i] > f[i] + 5.0, f"system {text}: component {i} is picked in {freq[i]:.1f} % of 4000 generations, declared {f[i]:.1f} % (all: {[round(x, 1) for x in freq]})"
 
     class Rec:
         def __init__(self, real):
